@@ -42,8 +42,8 @@ def run(prop, only=None):
                 continue
             if os.path.isdir(scratch):
                 shutil.rmtree(scratch)
-            subprocess.check_call(["rsync", "-a", "--exclude", "target", "--exclude", ".git", "--exclude", "web", "--exclude", "datasets",
-                                   "--exclude", "docs", REPO + "/", scratch + "/"])
+            subprocess.check_call(["rsync", "-a", "--exclude", "target", "--exclude", ".git", "--exclude", "datasets",
+                                   REPO + "/", scratch + "/"])
             r = subprocess.run(["patch", "-p1", "-s", "--no-backup-if-mismatch", "-i", path], cwd=scratch, capture_output=True, text=True)
             if r.returncode != 0:
                 results.append((name, want, "patch-does-not-apply", False))
